@@ -50,6 +50,11 @@ func c04Check(r *core.Run, s string, family string) *core.Violation {
 	if c.CompObs.Kind == "panic" {
 		return mk("panic", "a verdict", c.CompObs.Short(), "null")
 	}
+	// whatever the grammar says, the three entry points must agree on it: one-shot Search on an object document
+	// gives what Compile + Expression.Search gives
+	if one, two := core.Search(s, c04Docs[0].Raw), c.run(c04Docs[0].Raw); one.Key() != two.Key() && !(one.Kind == "ok" && two.Kind == "ok" && sortedEqual(one.Val, two.Val)) {
+		return mk("routes-differ", "Search == Compile + Expression.Search: "+two.Short(), one.Short(), c04Docs[0].Text)
+	}
 	if p.U != "" || c.RefImpl.U != "" || p.Syntax != c.RefImpl.Syntax {
 		r.AbstainOn("recogniser UNSURE: " + firstNonEmpty(p.U, c.RefImpl.U, "the two readings of the projection rule disagree on membership"))
 		r.Add("oracle_abstained", 1)
@@ -239,10 +244,39 @@ func c04ValidExpressions(thorough bool) []string {
 	return out
 }
 
+// c04Long: grammar members made of n repetitions of one construct; they must compile whatever their length.
+func c04Long(n int) []string {
+	rep := strings.Repeat
+	return []string{
+		"[" + rep("-a, ", n) + "a]", "a" + rep(" + -a", n), "a" + rep(" - a", n), rep("!", n%2*0+2*(n/2)) + "a", "a" + rep(" && !a", n), "a" + rep(".a", n), "[" + rep("a, ", n) + "a]",
+		"{" + rep("k: -a, ", n) + "z: a}", "a" + rep(" | -a", n), "not_null(" + rep("-a, ", n) + "a)", "a" + rep(" == -a", n%7+1), "[" + rep("+a, ", n) + "a]", "[" + rep("(a), ", n) + "a]",
+		"[" + rep("a[0], ", n) + "a]", "[" + rep("`1`, ", n) + "a]", "[" + rep("'x', ", n) + "a]", "[" + rep("a[?b], ", n/4+1) + "a]", "[" + rep("abs(a), ", n) + "a]", "a" + rep(" || a[*].b", n/2+1),
+	}
+}
+
 func c04RunEdits(r *core.Run) {
 	if bad := refSelfCheck(); bad != "" {
 		r.InternalError(bad)
 		return
+	}
+	sizes := []int{10, 100, 999, 1000, 1001, 1500}
+	if r.Thorough() {
+		sizes = append(sizes, 4096, 10000)
+	}
+	r.Bound("long_expression_sizes", sizes)
+	li := 0
+	for _, n := range sizes {
+		for _, e := range c04Long(n) {
+			li++
+			if !r.Mine(li) {
+				continue
+			}
+			r.Add("states", 1)
+			r.Begin(map[string]any{"expr": trunc(e, 200), "doc": ""})
+			if v := c04Check(r, e, "long-flat"); v != nil {
+				r.Violate(v)
+			}
+		}
 	}
 	exprs := c04ValidExpressions(r.Thorough())
 	r.Bound("valid_expressions", len(exprs))
@@ -280,7 +314,7 @@ func c04RunEdits(r *core.Run) {
 		// whitespace: one character at every gap (keeping the original spacing elsewhere), and at all gaps at once
 		// the four whitespace characters of the grammar, and look-alikes that are NOT whitespace (form feed,
 		// vertical tab, no-break space, line separator, byte order mark): the latter must be rejected
-		for _, ws := range []string{" ", "\t", "\n", "\r", "\f", "\v", "\u00a0", "\u2028", "\ufeff", "\x00"} {
+		for _, ws := range []string{" ", "\t", "\n", "\r", "\f", "\v", "\u00a0", "\u2028", "\ufeff", "\x00", "\u0085", "\u1680", "\u2003", "\u3000", "\u200b"} {
 			for j := 0; j <= len(toks); j++ {
 				pos := len(e)
 				if j < len(toks) {
